@@ -72,10 +72,18 @@ pub(super) fn write_ht(
         sent += 1;
     }
 
+    // Wait for every write, also after a failure, so that no page is in flight any more when the
+    // error is reported. A failed write must fail the sync: the WAL is only truncated once all
+    // pages have reached the hash table.
+    let mut result = Ok(());
     while sent > 0 {
-        io_handle.recv().unwrap();
+        let completion = io_handle.recv().unwrap();
+        if result.is_ok() {
+            result = completion.result;
+        }
         sent -= 1;
     }
+    result?;
 
     #[cfg(nomt_verif)]
     crate::verif_hook::begin(crate::verif_hook::Kind::Fsync, ht_fd.as_raw_fd(), 0, 0, "ht.fsync")?;
